@@ -1,6 +1,9 @@
 package main
 
-import "strings"
+import (
+	"go/ast"
+	"strings"
+)
 
 func init() { generators = append(generators, genFS) }
 
@@ -100,6 +103,62 @@ func genFS() {
 		}
 		l.defStrList("subJoins", joins)
 		l.defStrList("subPasses", passes)
+	}
+	// content of package-provided files (F17b; C06's "the layer's bytes are what the interface reads"): the size a
+	// FileInfo reports, and every test of a node's tar entry that decides between the package's bytes and the node's
+	{
+		for _, s := range srcs {
+			f := load(s.rel)
+			short := "memfs.go"
+			if s.tag == "Tarfs" {
+				short = "tarfs/fs.go"
+			}
+			var stmts []string
+			if fd := f.fn("memFileInfo.Size"); fd == nil {
+				problem("%s: func memFileInfo.Size not found", short)
+			} else {
+				for _, st := range fd.Body.List {
+					stmts = append(stmts, f.src(st))
+				}
+			}
+			l.defStrList("stmts"+s.tag+"_Size", stmts)
+			var tests []string
+			if f != nil {
+				ast.Inspect(f.f, func(n ast.Node) bool {
+					if is, ok := n.(*ast.IfStmt); ok {
+						if c := f.src(is.Cond); strings.Contains(c, "te != nil") {
+							tests = append(tests, c)
+						}
+					}
+					return true
+				})
+			}
+			l.defStrList("teTests"+s.tag, tests)
+		}
+	}
+	// DirFS (rwosfs.go): the methods that put content on disk or make names for it, statement by statement — hard
+	// links share content because the disk calls below act on the inode (os.WriteFile truncates and writes in place,
+	// os.Link adds a name); the harness compares the result with Model/FS.lean's linkView
+	{
+		f := load("pkg/apk/fs/rwosfs.go")
+		for _, fn := range []string{"WriteFile", "Link", "ReadFile", "Create", "Remove"} {
+			var stmts []string
+			if fd := f.fn("dirFS." + fn); fd == nil {
+				problem("rwosfs.go: method dirFS.%s not found", fn)
+			} else {
+				for _, st := range fd.Body.List {
+					stmts = append(stmts, f.src(st))
+				}
+			}
+			l.defStrList("stmtsDirfs_"+fn, stmts)
+		}
+		for _, fn := range []string{"dirFS.OpenFile", "dirFS.Stat", "dirFS.open"} {
+			if f.fn(fn) != nil {
+				hashFn("pkg/apk/fs/rwosfs.go", fn)
+			} else {
+				problem("rwosfs.go: method %s not found", fn)
+			}
+		}
 	}
 	l.write()
 }
